@@ -369,7 +369,13 @@ pub fn cap_memory(bytes: u64) {
 /// Boots `dir` in a forked child (memory-capped, 30 s alarm) to find out whether the start-up
 /// sequence survives this directory: Ok(()) or Err(description). The caller's process must be
 /// single-threaded at this point (the workers are).
+/// set by engines whose process has helper threads (S3 stub, tokio): forking is not safe there
+pub static SKIP_PROBE: std::sync::atomic::AtomicBool = std::sync::atomic::AtomicBool::new(false);
+
 pub fn probe_boot(dir: &str) -> Result<(), String> {
+    if SKIP_PROBE.load(Ordering::SeqCst) {
+        return Ok(());
+    }
     // the probe works on a copy: starting a node changes its directory (an invalid op-log is cleaned, ...)
     let copy = format!("{}-probe", dir.trim_end_matches('/'));
     let _ = std::fs::remove_dir_all(&copy);
